@@ -151,8 +151,17 @@ def _check_handler(r, idx, fi, h):
             msg = exc.args[0] if isinstance(exc, ast.Call) and exc.args else None
             names = lib.names_in(msg)
             if 'student_input' in names:
+                # the submission may only appear as an *argument* of str.format / join, never inside a format
+                # template or a %-format string: formatting student text as a template raises on braces / percent
+                # signs, and that exception would escape from the handler itself
+                tainted = _tainted_templates(msg)
                 text = ' '.join(c.value for c in ast.walk(msg) if isinstance(c, ast.Constant) and isinstance(c.value, str))
-                if 'Could not check input' in text:
+                if tainted:
+                    r.violation(construct + ' [generic]', 'the submission is part of a format template (`%s`): a brace or percent sign in '
+                                'the student\'s text makes the formatting itself raise IndexError/KeyError/ValueError inside the handler, '
+                                'and that non-library exception escapes to edX' % short(tainted[0]), where,
+                                expected="constant template .format(student_input)", found=short(msg))
+                elif 'Could not check' in text:
                     r.ok(construct + ' [generic]', 'StudentFacingError naming the submission', where)
                 else:
                     r.violation(construct + ' [generic]', "generic message no longer reads 'Invalid Input: Could not check input(s) ...'",
@@ -170,6 +179,19 @@ def _check_handler(r, idx, fi, h):
                 r.violation(construct, what, lib.loc(fi, h))
 
 
+def _tainted_templates(msg):
+    """format()/% templates (receivers) that are data-dependent on student_input."""
+    out = []
+    for n in ast.walk(msg):
+        if isinstance(n, ast.Call) and isinstance(n.func, ast.Attribute) and n.func.attr in ('format', 'format_map'):
+            if 'student_input' in lib.names_in(n.func.value):
+                out.append(n)
+        if isinstance(n, ast.BinOp) and isinstance(n.op, ast.Mod) and 'student_input' in lib.names_in(n.left) \
+                and any(isinstance(c, ast.Constant) and isinstance(c.value, str) for c in ast.walk(n.left)):
+            out.append(n)
+    return out
+
+
 def _is_isinstance_mitx(g, err):
     return (isinstance(g, ast.Call) and isinstance(g.func, ast.Name) and g.func.id == 'isinstance' and len(g.args) == 2
             and isinstance(g.args[0], ast.Name) and g.args[0].id == err and unparse(g.args[1]).split('.')[-1] == 'MITxError')
@@ -180,7 +202,7 @@ SAFE_SINKS = {'ensure_text_inputs', 'create_debuglog'}
 
 
 def d2_taint(ctx, idx):
-    r = ctx.rule('D2.TAINT', 'student_input is used outside the guard only by reviewed total functions', floor=3)
+    r = ctx.rule('D2.TAINT', 'student_input is used outside the guard only by reviewed total functions', floor=8)
     with r:
         impls = lib.class_family_methods(idx, AG, '__call__')
         if len(impls) < 3:
@@ -223,6 +245,30 @@ def d2_taint(ctx, idx):
                                 'there escapes to edX untranslated' % short(lib.enclosing_stmt(n)), lib.loc(fi, n))
             else:
                 r.ok(fi.qualname, '%d uses of student_input, all guarded or through %s' % (uses, sorted(SAFE_SINKS)), fi.loc)
+        # the reviewed sinks really are total on arbitrary (possibly non-text) input: create_debuglog touches its
+        # student_input only through isinstance / str / map(str, .)
+        cd = idx.func(AG + '.create_debuglog')
+        pname = 'student_input'
+        if pname not in cd.params:
+            raise AnalysisError('create_debuglog: parameter student_input vanished')
+        for n in walk_own(cd.node):
+            if not (isinstance(n, ast.Name) and n.id == pname and isinstance(n.ctx, ast.Load)):
+                continue
+            call = _enclosing_call(n)
+            ok = False
+            if call is not None:
+                cn = nf.callee_name(call)
+                if cn in ('isinstance', 'str', 'repr', 'type') and any(a is n for a in call.args):
+                    ok = True
+                if cn == 'map' and len(call.args) == 2 and isinstance(call.args[0], ast.Name) and call.args[0].id in ('str', 'repr') \
+                        and call.args[1] is n:
+                    ok = True
+                if cn == 'format' and any(a is n for a in call.args) :
+                    ok = True
+            r.check(ok, 'AbstractGrader.create_debuglog: use of student_input', 'only through isinstance/str/map(str, .)',
+                    'create_debuglog uses the raw submission in `%s`; ItemGrader.__call__ calls it before ensure_text_inputs and outside '
+                    'the guard, so non-text input raises TypeError there instead of being refused with ConfigError'
+                    % short(lib.enclosing_stmt(n)), lib.loc(cd, n), expected='str(student_input) / map(str, student_input)')
         # subclasses of the family must not add entry points that bypass: every override returns super().__call__
         for fi in impls:
             if fi.qualname == AG + '.__call__':
@@ -629,6 +675,9 @@ def d6_numpy_state(ctx, idx):
 
 # ------------------------------------------------------------------------ self-test
 MUTANTS = [
+    Mutant('generic-template-tainted', BASE, "                    formatted = msg.format(student_input)", "                    formatted = (msg.format('') + student_input + \"'\").format()", 'D1'),
+    Mutant('debuglog-raw-concat', BASE, '"Student Response:\\n" + str(student_input)', '"Student Response:\\n" + student_input', 'D2'),
+    Mutant('debuglog-raw-join', BASE, '"\\n".join(map(str, student_input))', '"\\n".join(student_input)', 'D2'),
     Mutant('guard-narrowed', BASE, "        except Exception as error:\n            if self.config['debug']:",
            "        except ValueError as error:\n            if self.config['debug']:", 'D1'),
     Mutant('mitx-reraised-as-generic', BASE, "raise error.__class__(str(error).replace('\\n', '<br/>'))",
